@@ -101,8 +101,10 @@ SelfParam == [name |-> "self", kind |-> "pos", dflt |-> 0]
 
 (* ---- closure shapes ------------------------------------------------------- *)
 (* role "r": the body reads it; "w": the body reads it and can rebind it (nonlocal);            *)
-(* "d": referenced only by a directive call that conversion removes (exclusion: such a cell is  *)
-(* always assigned - the directive, a no-op at run time, still evaluates its arguments in f).   *)
+(* "d": a module alias through which the body reaches a directive (v.experimental.set_loop_options(..)); *)
+(* conversion removes the directive call, so the converted body no longer references v.  Exclusions:  *)
+(* such a cell is always assigned and is never rebound (malt/converters/directives.py documents that  *)
+(* directives must be static; the unconverted function still evaluates the call).                     *)
 FV == {v \in [role : {"r", "w", "d"}, asg : BOOLEAN, sh : BOOLEAN] : v.role = "d" => v.asg}
 FreeShapes(kind) ==
   IF kind = "def" THEN {<<>>}                              \* module level: no enclosing function scope
@@ -307,7 +309,7 @@ Call(side, i, b) ==
 (* a nonlocal write made by the body (how = "call": the minimal call with the rebind request), through the *)
 (* cell object reachable from the function (how = "cell"), or by the sibling closure (side "sib")          *)
 Rebind(side, i, n, how) ==
-  /\ Running /\ Live(side, i) /\ n \in Names
+  /\ Running /\ Live(side, i) /\ n \in Names /\ Role(n) # "d"
   /\ \/ /\ how = "call" /\ side \in {"f", "g", "c"} /\ Role(n) = "w"
         /\ LET o == Outcome(Fn(side, i), MinCall.npos, MinCall.kws, FALSE, n, Fresh) IN
            /\ cellv' = o.cellv /\ objv' = o.objv
@@ -389,7 +391,7 @@ Key   == <<sc.sig.npo, sc.sig.np, B2I(sc.sig.va), sc.sig.nk, B2I(sc.sig.vk), sc.
 ScOut == [npo |-> sc.sig.npo, np |-> sc.sig.np, va |-> sc.sig.va, nk |-> sc.sig.nk, vk |-> sc.sig.vk,
           nd |-> sc.sig.nd, kd |-> sc.sig.kd, dk |-> sc.dk, kind |-> sc.kind, free |-> sc.free, pre |-> sc.pre,
           ni |-> NI, params |-> Params(sc.sig), gcells |-> DOMAIN Instantiate(F(1)).cells, post |-> Post,
-          probes |-> Probes(cellv, objv, globv)]
+          probes |-> Probes(cellv, objv, globv), mut |-> {s \in Slots : Mutable(ObjId(1, s))}]
 ReportSc == (phase = "run" /\ hist = <<>>) => PrintT(ToJson([k |-> Key, sc |-> ScOut]))
 Report   == (phase = "run" /\ Len(hist) = Depth) => PrintT(ToJson([k |-> Key, h |-> hist]))
 =============================================================================
